@@ -278,6 +278,23 @@ func (aa *aliasAbs) cs(t *T) runeSet {
 	if s, ok := t.strVal(); ok {
 		return rsOfString(s)
 	}
+	if t.Op == "call" && strings.HasPrefix(t.Aux, "conv<") && len(t.A) == 1 && t.A[0].Typ != nil {
+		// byte(r): the rune's values, provided the comparisons on the path confine it to one byte's
+		// worth of ASCII (otherwise the conversion truncates and anything may come out)
+		if ib, ok := t.A[0].Typ.Underlying().(*types.Basic); ok && (ib.Kind() == types.Int32 || ib.Kind() == types.Uint8) {
+			set := aa.charSet(t.A[0])
+			if set == nil {
+				aa.notes = append(aa.notes, short(t.String(), 60)+" converts a rune that is not confined by comparisons")
+				return rsAny()
+			}
+			if _, bad := set.firstBad(func(r rune) bool { return r < 0x80 }); bad {
+				aa.notes = append(aa.notes, short(t.String(), 60)+" may truncate a rune ≥ 0x80")
+				return rsAny()
+			}
+			aa.nSan++
+			return set
+		}
+	}
 	if t.Typ != nil && t.Op != "binop" {
 		if b, ok := t.Typ.Underlying().(*types.Basic); ok && (b.Kind() == types.Uint8 || b.Kind() == types.Int32) {
 			// one byte / rune of the text: a byte below 0x80 is that character; bytes from 0x80 up are
